@@ -94,6 +94,8 @@ class SerializedWaiter(BaseModel):
     has_requirements: bool = Field(default=False)
     # Resolved event if available (serialized), None otherwise
     resolved_event: str | None = None
+    # True once the waiter's timeout fired; the replayed step then raises TimeoutError
+    timed_out: bool = Field(default=False)
 
     @model_validator(mode="before")
     @classmethod
